@@ -151,7 +151,7 @@ func c15OverlapPayload(sig string, rnd c15Rnd, tag string) c15Payload {
 }
 
 func c15Send(e *c15Exp, p c15Payload) error {
-	ctx, cancel := context.WithTimeout(context.Background(), 30*time.Second)
+	ctx, cancel := context.WithTimeout(context.Background(), c15Patience)
 	defer cancel()
 	switch p.sig {
 	case "logs":
@@ -164,15 +164,27 @@ func c15Send(e *c15Exp, p c15Payload) error {
 	return e.metrics.ConsumeMetrics(ctx, p.m)
 }
 
+// c15SendPatient: c15Send; a failure of the client's transport of a request the server side has no record of (loaded machine) is
+// sent again, up to 3 times. Returns the last error and the number of attempts.
+func c15SendPatient(r *c15Recv, e *c15Exp, p c15Payload) (error, int) {
+	for tries := 1; ; tries++ {
+		err := c15Send(e, p)
+		if err == nil || tries > 3 || !c15TransportFailure("http", err) || r.sink.has(p.want) {
+			return err, tries
+		}
+	}
+}
+
 // c15Overlap runs one overlap case: comp = the compression of every sender ("mixed" = each its own)
 func c15Overlap(t *testing.T, out *vOut, r *c15Recv, px *c15Proxy, ci, k int, comp string, rnd c15Rnd) {
 	via := &c15Recv{grpcAddr: r.grpcAddr, httpAddr: px.ln.Addr().String()}
 	type job struct {
-		e    *c15Exp
-		p    c15Payload
-		comp string
-		enc  string
-		err  error
+		e     *c15Exp
+		p     c15Payload
+		comp  string
+		enc   string
+		err   error
+		tries int
 	}
 	pick := func() (string, string) {
 		c := comp
@@ -196,7 +208,7 @@ func c15Overlap(t *testing.T, out *vOut, r *c15Recv, px *c15Proxy, ci, k int, co
 	var jobs []*job
 	for i := 0; i < 1+rnd.IntN(2); i++ {
 		j := mk(100 + i)
-		j.err = c15Send(j.e, j.p)
+		j.err, j.tries = c15SendPatient(r, j.e, j.p)
 		jobs = append(jobs, j)
 	}
 	// the overlapping exports
@@ -210,7 +222,7 @@ func c15Overlap(t *testing.T, out *vOut, r *c15Recv, px *c15Proxy, ci, k int, co
 		go func() {
 			defer wg.Done()
 			<-start
-			j.err = c15Send(j.e, j.p)
+			j.err, j.tries = c15SendPatient(r, j.e, j.p)
 		}()
 	}
 	close(start)
@@ -223,26 +235,36 @@ func c15Overlap(t *testing.T, out *vOut, r *c15Recv, px *c15Proxy, ci, k int, co
 
 	total := len(jobs)
 	out.Linef("op conc k=%d", total)
-	acked := 0
-	want := map[string]int{}
+	acked, retries := 0, 0
+	want, logical := map[string]int{}, map[string]int{}
 	for i, j := range jobs {
 		if j.err == nil {
 			acked++
 		} else {
 			out.Linef("viol sig=C15/overlap/well-formed-export-not-acknowledged/%s export=%d of=%d enc=%s signal=%s verdict=%s err=%q", j.comp, i, total, j.enc, j.p.sig, c15Verdict(j.err), fmt.Sprint(j.err))
 		}
-		want[string(j.p.want)]++
+		want[string(j.p.want)] += j.tries
+		logical[string(j.p.want)]++
+		retries += j.tries - 1
 	}
-	matched := 0
+	matched, seenCnt := 0, map[string]int{}
 	for _, g := range got {
 		if want[string(g)] > 0 {
 			want[string(g)]--
 			matched++
+			seenCnt[string(g)]++
 		} else {
 			out.Linef("viol sig=C15/overlap/payload-at-consumer-is-not-one-that-was-sent/%s got=%d bytes", comp, len(g))
 		}
 	}
-	out.Linef("obs conc sent=%d acked=%d delivered=%d matched=%d", total, acked, len(got), matched)
+	dup := 0 // deliveries of re-sent exports beyond the one the model counts
+	for k, c := range seenCnt {
+		if c > logical[k] {
+			dup += c - logical[k]
+		}
+	}
+	out.Linef("stat conc_transport_retry %d", retries)
+	out.Linef("obs conc sent=%d acked=%d delivered=%d matched=%d", total, acked, len(got)-dup, matched-dup)
 	out.Linef("stat overlap_cases 1")
 	out.Linef("stat overlap_exports %d", total)
 	out.Linef("stat overlap_comp_%s 1", comp)
